@@ -155,11 +155,12 @@ def main_c08(tier):
         npairs += len(pairs_of(model))
         if tier == "quick" and len(fam) > 260:
             rng = random.Random(core.seed())
-            # every pair keeps its enter/leave + mismatch + 3 sampled shapes
+            # every pair keeps its enter/leave, nesting, mismatch, leave on empty and open-at-end (the clauses
+            # of the property) + 2 sampled shapes of the remaining six
             keep = []
             for i in range(0, len(fam), 11):
                 grp = fam[i:i + 11]
-                keep += grp[:3] + rng.sample(grp[3:], 3)
+                keep += grp[:5] + rng.sample(grp[5:], 2)
             fam = keep
         run_extra(ck, bdir, sys1({"O", mt["char"]}), fam, "C08/pairs/" + model)
         run_extra(ck, bdir, sys1({"O", mt["char"]}), depth_probes(model), "C08/depth/" + model, view_tail=3)
